@@ -74,9 +74,17 @@ def build(c, dr, rng, label):
         s.potential[a, b] = U
         with warnings.catch_warnings():
             warnings.simplefilter('ignore')
-            s.closure[a, b] = {'PY': pyPRISM.closure.PercusYevick, 'HNC': pyPRISM.closure.HyperNettedChain,
-                               'MSA': pyPRISM.closure.MeanSphericalApproximation,
-                               'MS': pyPRISM.closure.MartynovSarkisov}[p['clos']](apply_hard_core=p['flag'])
+            clo = {'PY': pyPRISM.closure.PercusYevick, 'HNC': pyPRISM.closure.HyperNettedChain,
+                   'MSA': pyPRISM.closure.MeanSphericalApproximation,
+                   'MS': pyPRISM.closure.MartynovSarkisov}[p['clos']](apply_hard_core=p['flag'])
+            if rng.random() < 0.3:
+                # the closure object has a past: the user tried it stand-alone on this grid (a small contact distance, no
+                # potential, as the unit tests do) before handing it to the System
+                clo.sigma = float(s.domain.r[0])
+                clo.potential = np.zeros(LEN)
+                with np.errstate(all='ignore'):
+                    clo.calculate(s.domain.r, np.zeros(LEN))
+            s.closure[a, b] = clo
     shape = int(rng.integers(0, 4))
     if shape == 0:
         s.omega[NA, NA] = pyPRISM.omega.SingleSite()
